@@ -31,7 +31,7 @@ def replay_instances(ctx):
         # three addresses, every batch, finite / connected class
         ("a3", {"Addrs": A3, "TTLs": "{0, 2, 8}", "Conn": 8, "Seqs": "{1, 2}", "Cap": 0, "MaxBatch": 3}, 40, 150 if q else 2000, 60),
         # two addresses, two finite classes, connected and permanent
-        ("a2", {"Addrs": A2, "TTLs": "{0, 2, 4, 8}" if q else "{0, 2, 4, 8, 9}", "Conn": 8, "Seqs": "{1, 2}", "Cap": 0, "MaxBatch": 2}, 40, 150 if q else 2000, 60),
+        ("a2", {"Addrs": A2, "TTLs": "{0, 2, 4, 8}" if q else "{0, 2, 4, 8, 9}", "Conn": 8, "Seqs": "{1, 2}" if q else "{1, 2, 3}", "Cap": 0, "MaxBatch": 2}, 40, 150 if q else 2000, 60),
         # binding per-peer cap, one-address calls, connected class included
         ("cap", {"Addrs": A3, "TTLs": "{0, 2, 8}", "Conn": 8, "Seqs": "{1, 2}", "Cap": 2, "MaxBatch": 1}, 40, 150 if q else 1000, 60),
         # binding cap, ORDERED batches of up to two addresses (refreshed-existing then new, new then
